@@ -34,7 +34,9 @@ def run(chk):
                 "keys with 3 bases; keys without revocation part; keyshare-server lists), ProofD.Verify / ProofU.Verify per element. VIOLATION = any "
                 "panic, or acceptance of a document the specification marks not WellFormed. Non-trivial = distinct mutated document. "
                 "LIMIT: the second half of the property's quantifier, coverage-guided byte-level fuzzing of the decoders, is a different technique "
-                "and is not done here; byte-level variety is limited to the wrong-type and garbled values the harness draws per seed.")
+                "and is not done here; byte-level variety is limited to a fixed list of 12 wrong-typed / undecodable values per big-integer slot (booleans, containers, "
+                "fractions, negatives, non-base64, padding-only and badly padded base64 strings), every one of which is replayed for every wrong-type "
+                "mutation, and the garbled values the harness draws per seed.")
     chk.assumptions = ["both fixed 1024-bit keys have 6 bases and key counter 0 (checked by the harness)",
                        "the real templates abstract to exactly the trees of Decode.tla (checked by the harness node by node)",
                        "duplicated object members are not mutated further (encoding/json would merge the copies)",
@@ -83,8 +85,10 @@ def run(chk):
     open(cp, "w").write("\n".join(docs + sample) + "\n")
     open(tp, "w").write("\n".join(tpls) + "\n")
     res = vplib.vh("dec", ["run", "--in", cp, "--tier", T, "--seed", str(chk.seed), tp], timeout=3000)
-    if res["evaluations"] != len(docs) + len(sample):
-        raise vplib.Machinery("harness replayed %d of %d documents" % (res["evaluations"], len(docs) + len(sample)))
+    # every document with a wrong-type mutation is replayed once per concrete wrong value, so evaluations >= documents
+    if res.get("counts", {}).get("input-case") != len(docs) + len(sample) or res["evaluations"] < len(docs) + len(sample):
+        raise vplib.Machinery("harness replayed %s of %d documents" % (res.get("counts", {}).get("input-case"), len(docs) + len(sample)))
+    chk.extra["space"]["concrete_replays"] = res["evaluations"]
     c = res.get("counts", {})
     if not c.get("outcome:accept") or not c.get("outcome:reject") or not c.get("outcome:decode-error"):
         raise vplib.Machinery("replay is vacuous: outcome classes %s" % {k: v for k, v in c.items() if k.startswith("outcome:")})
